@@ -53,6 +53,7 @@ def run(ctx):
     ctx.functions(cgio.circuit_to_verilog, cgio.verilog_to_circuit, cgio.to_file, cgio.from_file)
     from circuitgraph.parsing import verilog as pv
     ctx.functions(pv._VerilogCircuitGraphTransformer.module, pv._VerilogCircuitGraphTransformer.module_instantiation, pv._VerilogCircuitGraphTransformer.assignment)
+    workdir = tempfile.TemporaryDirectory(prefix="cgv_v_")
     for cid, spec in ctx.cases(all_cases(ctx)):
         if isinstance(spec, str):
             spec = Net.of(cg.from_lib(spec.split(":")[1])).spec()
@@ -70,11 +71,12 @@ def run(ctx):
                 det = {"case": cid, "circuit": spec if len(spec["nodes"]) < 25 else None, "behavioral": behavioral, "via_file": via_file}
                 c = build(spec)
                 if via_file:
-                    with tempfile.TemporaryDirectory(prefix="cgv_v_") as td:
-                        path = os.path.join(td, f"{A.name}.v")
-                        _, e = call(cgio.to_file, c, path, "verilog", behavioral)
-                        text = open(path).read() if e is None else None
-                        c2, e2 = (None, e) if e is not None else call(cgio.from_file, path, A.name, None, bbs_of(cg, A))
+                    # one path per worker, rewritten for every circuit (a user's build directory): what is read must be what was just written
+                    # (behavioral: file named after the module and the module name left to from_file's default)
+                    path = os.path.join(workdir.name, f"{A.name}.v" if behavioral else "netlist.v")
+                    _, e = call(cgio.to_file, c, path, "verilog", behavioral)
+                    text = open(path).read() if e is None else None
+                    c2, e2 = (None, e) if e is not None else call(cgio.from_file, path, None if behavioral else A.name, None, bbs_of(cg, A))
                 else:
                     _first, e = call(cgio.circuit_to_verilog, c, behavioral)
                     # the same circuit object written a second time must give a text with the same meaning
